@@ -144,14 +144,21 @@ func vc_Streamer_parseEvents_loop1_inv(pos Position, autocommit bool, tranEvents
 
 // ---- what the handler is given (C02, C03), checked at the only call site ----
 
-func vc_callback_sendTransaction_requires(tran *Transaction, ev replication.BinlogEvent, tranEvents []*StreamEvent) bool {
-	return tran != nil &&
+func vc_callback_sendTransaction_requires(tran *Transaction, ev replication.BinlogEvent, format replication.BinlogFormat, tranEvents []*StreamEvent) bool {
+	class := specClass(ev, format)
+	return tran != nil && !vcCalled &&
+		// C02: only at a commit point — a commit / rollback event, or a change outside BEGIN...COMMIT
+		(class == vcCommit || class == vcRollback || (class == vcChange && !vcOpen)) &&
+		// C02: exactly the buffered changes (none for a rollback; the change itself when it is autocommitted)
+		len(tran.Events) == len(tranEvents) &&
+		(class != vcRollback || len(tranEvents) == 0) &&
+		(class != vcCommit || len(tranEvents) == vcBuf) &&
+		(class != vcChange || len(tranEvents) == vcBuf+1) &&
+		// C03: labels
 		tran.NowPosition == vcAcc &&
 		tran.NextPosition.Filename == vcAcc.Filename &&
 		tran.NextPosition.Offset == ev.NextPosition() &&
-		tran.Timestamp == int64(ev.Timestamp()) &&
-		len(tran.Events) == len(tranEvents) &&
-		!vcCalled
+		tran.Timestamp == int64(ev.Timestamp())
 }
 
 // ---- postconditions ----
@@ -159,4 +166,14 @@ func vc_callback_sendTransaction_requires(tran *Transaction, ev replication.Binl
 // C04: whatever ends the attempt, the position handed back is the accepted boundary
 func vc_Streamer_parseEvents_ensures_resume(s *Streamer, ctx context.Context, events <-chan replication.BinlogEvent, out Position, err *Error) bool {
 	return out == vcAcc
+}
+
+// C17: an event that fails the validity test ends the attempt with an error (and, by the clause above, with the
+// position still at the accepted boundary); no other method of it has been called (the accessors' preconditions
+// are obligations at every call site and only the validity test establishes them)
+func vc_Streamer_parseEvents_ensures_gate(s *Streamer, ctx context.Context, events <-chan replication.BinlogEvent, out Position, err *Error, ev replication.BinlogEvent, ok bool) bool {
+	if !ok || ev == nil {
+		return true
+	}
+	return ev.IsValid() || err != nil
 }
